@@ -42,6 +42,7 @@
 #define E_PAYLOAD 16
 #define E_PLAN_STEP 17
 #define E_PAYLOAD2 18
+#define E_COPY_RNG 19
 #define M_SELECT 1
 #define M_ENTRY_GUARD 4
 #define M_ENTER 5
@@ -984,6 +985,24 @@ int main(void) {
     for (int x = 0; x < NS; x++) { round_seen_entry[x] = 0; round_seen_exit[x] = 0; }
     if (w1) vf_request_with(I, k1, d1, p1); else vf_request(I, k1, d1);
     vf_update(I); }
+#elif ENTRY == E_COPY_RNG
+  /* C10 (built-in generator): what the ORIGINAL does must not depend on what a COPY of it does.  Two identically
+     constructed originals; a copy of the second draws a random number first; then both originals randomize. */
+  { static struct T_struct_VfInst orig2, copy2;
+    phase = 0; vf_construct(&orig2);
+    { uint8_t *x = vf_compo_active(I), *y = vf_compo_active(&orig2); for (int c = 0; c < NC; c++) y[c] = x[c];
+      x = vf_compo_resumable(I); y = vf_compo_resumable(&orig2); for (int c = 0; c < NC; c++) y[c] = x[c]; }
+    vf_copy(&copy2, &orig2);
+    phase = 1; cancel_ok = 0; budget = 0;
+#ifndef KF_C10_SHARED_RNG
+    which = 1; vf_imm6(&copy2, 0);                      /* the copy draws */
+#endif
+    which = 1; vf_imm6(&orig2, 0);
+    which = 0; vf_imm6(I, 0);
+    phase = 0;
+    END;
+    for (int c = 0; c < NC; c++) __CPROVER_assert(vf_compo_active(I)[c] == vf_compo_active(&orig2)[c], "C10 an instance makes the same random choices whatever a copy of it does (its generator is its own)");
+  }
 #elif ENTRY == E_CONSTRUCT_PAIR
 #elif ENTRY == E_NONE
 #else
